@@ -383,3 +383,122 @@ Fixpoint run_batch (n : nat) (c : conn) (ks : list kres) : res (conn * list even
           end
       end
   end.
+
+(* ==========================================================================================
+   Foreign close requests cut into their micro-steps (added 2026-10-01; everything above is
+   unchanged).  shutdown(), forceClose() and forceCloseWithDelay() read
+       if (state_ == kConnected [|| state_ == kDisconnecting]) { setState(kDisconnecting); <hand-off> }
+   with a plain load and a plain store of state_.  Called from a thread other than the loop
+   thread, the load, the store and the hand-off (queueInLoop / runInLoop / runAfter) are three
+   steps between which the loop thread runs.  The ops XShutdown / ForceClose / ForceCloseDelay
+   of [op] execute the three at once (a call on the loop thread, or one whose load and store
+   are not separated by a loop-thread state change); the x-layer below executes them one by
+   one.  [Base o] is an op of the machine above.
+   The x-machine also keeps the [registered] flag faithful in states the invariant of the base
+   machine excludes: every Channel::update() (re-)registers the channel ([rereg]); in the
+   reachable states of the base machine this changes nothing (Conn_Race.rereg_id). *)
+Inductive creq := RShutdown | RForceClose | RForceCloseDelay.
+
+(* the unsynchronised state test of the request *)
+Definition creq_test (r : creq) (s : cstate) : bool :=
+  match r with
+  | RShutdown => cstate_eqb s Connected
+  | RForceClose | RForceCloseDelay => cstate_eqb s Connected || cstate_eqb s Disconnecting
+  end.
+
+(* a request in flight on foreign thread [rq_thread]: its kind, whether its state test passed,
+   whether its store has been executed *)
+Record xreq := mkReq { rq_thread : nat; rq_kind : creq; rq_passed : bool; rq_stored : bool }.
+
+Record xconn := mkX { xbase : conn; xreqs : list xreq }.
+
+Definition xinit (mark : N) (wc hw : bool) : xconn := mkX (init mark wc hw) [].
+
+Inductive xop :=
+| Base (o : op)
+| XCheck (t : nat) (r : creq)    (* the load of state_ and the comparison *)
+| XSet (t : nat)                 (* setState(kDisconnecting), if the test had passed *)
+| XEnq (t : nat).                (* queueInLoop / runInLoop / runAfter, if the test had passed; the call returns *)
+
+Fixpoint find_req (t : nat) (l : list xreq) : option xreq :=
+  match l with
+  | [] => None
+  | q :: r => if rq_thread q =? t then Some q else find_req t r
+  end.
+
+Definition drop_req (t : nat) (l : list xreq) : list xreq :=
+  filter (fun q => negb (rq_thread q =? t)) l.
+
+Definition set_registered (c : conn) (b : bool) : conn :=
+  mkConn (st c) (outb c) (inb c) (writing c) (rd_chan c) (rd_flag c) b (hwm c) (has_wc c) (has_hwm c)
+         (wire c) (fin c) (pending c) (chk c) (delayed c) (accepted c) (consumed c) (delivered c)
+         (enq c) (ran c) (ups c) (downs c).
+
+(* Channel::remove() unregisters; every Channel::update() - an interest change, or the
+   disableAll() of handleClose / connectDestroyed - (re-)registers *)
+Definition rereg (c c' : conn) : conn :=
+  if registered c && negb (registered c') then c'
+  else if negb (Bool.eqb (writing c) (writing c')) || negb (Bool.eqb (rd_chan c) (rd_chan c'))
+          || negb (downs c =? downs c')
+       then set_registered c' true
+       else c'.
+
+(* the hand-off of a request whose test passed *)
+Definition creq_enqueue (r : creq) (c : conn) : conn :=
+  match r with
+  | RShutdown => set_pending c (pending c ++ [FShutdown])          (* runInLoop(shutdownInLoop), not in the loop thread *)
+  | RForceClose => set_pending c (pending c ++ [FForceClose])      (* queueInLoop(forceCloseInLoop), strong reference *)
+  | RForceCloseDelay =>                                            (* runAfter(makeWeakCallback(.., forceClose)) *)
+      mkConn (st c) (outb c) (inb c) (writing c) (rd_chan c) (rd_flag c) (registered c) (hwm c) (has_wc c)
+             (has_hwm c) (wire c) (fin c) (pending c) (chk c) (S (delayed c)) (accepted c) (consumed c)
+             (delivered c) (enq c) (ran c) (ups c) (downs c)
+  end.
+
+Definition xstep (x : xconn) (o : xop) : res (xconn * list event) :=
+  match o with
+  | Base b =>
+      match step (xbase x) b with
+      | Ok (c', e) => Ok (mkX (rereg (xbase x) c') (xreqs x), e)
+      | Rejected => Rejected
+      | Fault => Fault
+      end
+  | XCheck t r =>
+      if cstate_eqb (st (xbase x)) Connecting then Rejected      (* no user holds the pointer before UP *)
+      else match find_req t (xreqs x) with
+           | Some _ => Rejected                                  (* one call at a time per thread *)
+           | None => Ok (mkX (xbase x) (mkReq t r (creq_test r (st (xbase x))) false :: xreqs x), [])
+           end
+  | XSet t =>
+      match find_req t (xreqs x) with
+      | Some q =>
+          if rq_stored q then Rejected
+          else Ok (mkX (if rq_passed q then set_st (xbase x) Disconnecting else xbase x)
+                       (mkReq t (rq_kind q) (rq_passed q) true :: drop_req t (xreqs x)), [])
+      | None => Rejected
+      end
+  | XEnq t =>
+      match find_req t (xreqs x) with
+      | Some q =>
+          if rq_stored q
+          then Ok (mkX (if rq_passed q then creq_enqueue (rq_kind q) (xbase x) else xbase x)
+                       (drop_req t (xreqs x)), [])
+          else Rejected
+      | None => Rejected
+      end
+  end.
+
+Fixpoint xrun (x : xconn) (ops : list xop) : res (xconn * list event) :=
+  match ops with
+  | [] => Ok (x, [])
+  | o :: rest =>
+      match xstep x o with
+      | Ok (x1, e1) =>
+          match xrun x1 rest with
+          | Ok (x2, e2) => Ok (x2, e1 ++ e2)
+          | Rejected => Rejected
+          | Fault => Fault
+          end
+      | Rejected => Rejected
+      | Fault => Fault
+      end
+  end.
